@@ -211,12 +211,15 @@ def h_static(ctx, d, N, F, types):
     written_equals(ctx, "g(r)", "csv", f1, g1)
     s1 = sq.sq(S, qvector=qv, outputfile=f2).getresults()
     written_equals(ctx, "S(q)", "csv", f2, s1)
+    # integer-valued wave vectors held in a float64 array (as np.loadtxt returns them): the caller's array, used twice
+    qf = qv.astype(np.float64)
+    ctx.protect("qvector (float64)", qf)
     c1 = g.conditional_gr(S.snapshots[0], condition=cond, conditiontype=None, ppp=ppp, rdelta=delta)
-    k1 = sq.conditional_sq(S.snapshots[F - 1], qvector=qv.astype(float) * 2 * np.pi / S.snapshots[0].boxlength, condition=cond)
+    k1 = sq.conditional_sq(S.snapshots[F - 1], qvector=qf, condition=cond)
     g2 = g.gr(S, ppp=ppp, rdelta=delta).getresults()
     s2 = sq.sq(S, qvector=qv).getresults()
     c2 = g.conditional_gr(S.snapshots[0], condition=cond, conditiontype=None, ppp=ppp, rdelta=delta)
-    k2 = sq.conditional_sq(S.snapshots[F - 1], qvector=qv.astype(float) * 2 * np.pi / S.snapshots[0].boxlength, condition=cond)
+    k2 = sq.conditional_sq(S.snapshots[F - 1], qvector=qf, condition=cond)
     ctx.output("gr", np.asarray(g1["gr"].values))
     same(ctx, "g(r) after S(q) and conditional g(r)", g1, g2)
     same(ctx, "S(q) after g(r)", s1, s2)
@@ -479,7 +482,7 @@ class _FreudStub:
         self.locality.Voronoi = Voronoi
 
 
-def h_volume_matrix(ctx, d, N, centred, outfile):
+def h_volume_matrix(ctx, d, N, centred, outfile, outside=False):
     """VolumeMatrix perturbs a working copy only: snapshot.positions unchanged (also when the box is centred at the origin and
     convert_configuration hands the positions through without shifting)"""
     ctx.covers("PyMatterSim.neighbors.freud_neighbors.VolumeMatrix", "PyMatterSim.neighbors.freud_neighbors.convert_configuration")
@@ -500,6 +503,10 @@ def h_volume_matrix(ctx, d, N, centred, outfile):
                     raise_abort = True
                     from symx.engine import PathAbort
                     raise PathAbort("perturbation outside the assumed range")
+    if outside:
+        # unwrapped coordinates: particle 0 sits one box length outside the primary cell along x, particle 1 two along y
+        pos[0][0] = pos[0][0] + L[0]
+        pos[1][1] = pos[1][1] - 2 * L[1]
     snap = C.snapshot(ctx, ru, 0, [1] * N, C.farr(ctx, pos), rows, lo=lo)
     S = ru.Snapshots(nsnapshots=1, snapshots=[snap])
     protect_snapshots(ctx, S)
@@ -573,7 +580,8 @@ def cfg_nb(tier, seed):
 
 def cfg_vol(tier, seed):
     out = [dict(d=2, N=4, centred=True, outfile=False), dict(d=2, N=4, centred=False, outfile=False), dict(d=2, N=4, centred=True, outfile=True),
-           dict(d=3, N=4, centred=True, outfile=False)]
+           dict(d=3, N=4, centred=True, outfile=False), dict(d=3, N=4, centred=True, outfile=False, outside=True),
+           dict(d=2, N=4, centred=True, outfile=False, outside=True)]
     if tier == "thorough":
         out += [dict(d=3, N=5, centred=True, outfile=False), dict(d=3, N=4, centred=False, outfile=True)]
     return out
